@@ -796,7 +796,7 @@ func (e *Engine) RenameCandidates(key string, errText string) (missing string, c
 		fnKey = key[:i]
 	}
 	fn := e.funcByString(fnKey)
-	if con == nil || fn == nil || missing == "_i" {
+	if con == nil || fn == nil {
 		return missing, nil
 	}
 	word := func(text, w string) bool {
